@@ -3,19 +3,52 @@ PENDING = 'check not built yet in this round; not claimed until its world exists
 SETUP = '/venv/bin/python -m compileall -q sim worlds peers run.py plans.py && /venv/bin/python run.py selftest determinism --fast'
 HOOKS = {
   'guard': 'SCALES_VERIF',
-  'enable': 'none needed: every seam is external (gevent.config.loop, time.time, scales.scales_socket.gsocket/socket, module-global set, KazooClient argument); checks import scales from /repo working tree',
+  'enable': 'none needed: every seam is external (gevent.config.loop, time.time, scales.scales_socket.gsocket/socket, module-global set, KazooClient argument); checks import scales from /repo working tree (or $SCALES_REPO)',
   'baseline_off_cmd': 'cd /repo && /venv/bin/python -m pytest -ra -q -p no:cacheprovider --timeout=900 --continue-on-collection-errors',
   'source_commits': [],
   'add_only': True,
 }
-NOTES = 'See DESIGN.md. Exit 0 = held on everything explored; 1 = VIOLATION line with replay; 2 = harness error.'
+NOTES = ('See DESIGN.md. Exit 0 = held on everything explored (KNOWN-FINDING lines are informational); '
+         '1 = VIOLATION line with a minimised replay file; 2 = harness error. Genuine defects found and '
+         'repaired are listed in known_findings.json (status fixed) with their fix: commits in /repo.')
 NOT_APPLICABLE = {
   'C20': 'pure function of an interface class / URI string: no schedule, clock, fault, I/O or second party for a simulator to control (DESIGN.md section 6)',
 }
+_STACK_NOTE = ('Trusts SimLoop as a model of gevent-on-libev scheduling and the fake socket layer as a model of TCP; '
+               'servers are harness code (Thrift library codec + own mux codec). Samples schedules/fault sequences, does not enumerate them.')
 CHECKS = {
+  'C01': {
+    'text': 'Seeded exploration of complete Thrift and ThriftMux clients built by the public builders over a simulated network: generated calls (explicit/default timeouts, proxy and dispatcher entry points, before and after Open), replies landing on/around the deadline and the rounded deadline, drops, resets, refusals, black holes, membership changes, client close. Every set/set_exception of each call\'s terminal result is counted; oracle: at most one completion, outcome never changes, completed by t+T+10ms+1ms, TimeoutError never before t+T.',
+    'design_ref': 'DESIGN.md 5 C01', 'note': _STACK_NOTE + ' Deadline clause evaluated with the stall fault off.'},
+  'C02': {
+    'text': 'Same worlds as C01 with honest servers: every call carries a unique id in its argument; the server logs each decoded (method, args) and stamps each reply with a nonce. Oracle: every decoded request equals exactly one issued call, no call reaches servers twice, and a call that returns a value returns exactly the value its own request produced (serial connections reused after timeouts, mux reordering/loss, resets between requests).',
+    'design_ref': 'DESIGN.md 5 C02', 'note': _STACK_NOTE},
+  'C07': {
+    'text': 'Seeded exploration of the real dispatcher + timeout sink + WatermarkPoolSink over stub transports that honour message deadlines: (min,max,queue) in [0..3]x[..4]x{0..5,inf}, bursts, waiters timing out while queued, connections dying while lent/cached/opening, failing/slow opens. Oracles at every stub event and every quiescent point: <= max connections, exclusive lending, FIFO hand-off, immediate MaxWaitersError, work conservation, <= min retained, waiters failed exactly once when a dead connection is released.',
+    'design_ref': 'DESIGN.md 5 C07', 'note': 'Stub transports are harness code (documented SinkProvider extension point); behaviour after the pool has closed itself is not checked (the stack replaces a closed pool).'},
+  'C08': {
+    'text': 'Fault enumeration: a fault-free pilot run of a generated scenario on the real serial-Thrift / ThriftMux transport (under dispatcher + timeout sink + serializer, on VarzSocketWrapper(ScalesSocket)) records every client-side I/O operation; then one run per (operation x {exception, EOF, refusal, silence/black-hole}) incl. reconnect-after-timeout and ping-timeout positions. Oracle: in-flight requests fail exactly once and promptly, state Closed, fault signal fired, and a transport reporting Open+idle carries a fresh probe request.',
+    'design_ref': 'DESIGN.md 5 C08', 'note': 'Exhaustive over the I/O operations of each sampled base scenario (one fault per run); base scenarios, chunking and timing are sampled.'},
+  'C09': {
+    'text': 'Seeded exploration of full stacks under endpoint down/up histories (crash, refuse, black hole, reset, down at first connect) with steady background traffic over long virtual horizons (back-off 2-120 s costs nothing): fail-fast while every member is down, reconnection attempts of each resurrector (observed at its sink factory) have non-decreasing gaps capped at max and do not stop, a healed endpoint receives traffic within max_wait (+127 s kernel SYN timeout after a black hole), no new transport connects after DispatcherClose.',
+    'design_ref': 'DESIGN.md 5 C09', 'note': _STACK_NOTE + ' Liveness is bounded: >= 40 calls issued after the bound, members always in the balancer (heap, or aperture with min_size = members).'},
   'C10': {
     'text': 'Seeded exploration: the real TimerQueue runs on the virtual clock; generated Schedule/cancel histories from several driver greenlets are interleaved with the worker\'s clear/sleep/peek/wait steps (ops snapped to pending deadlines, past/equal deadlines, cancel of head); every run is checked against a reference schedule (once, not early, by the rounded deadline, cancelled never runs, order by rounded deadline then scheduling order).',
     'design_ref': 'DESIGN.md 5 C10',
-    'note': 'Trusts SimLoop as a model of gevent scheduling; 1 ms slack on lateness, one float step on rounding; samples schedules, does not enumerate them.',
-  },
+    'note': 'Trusts SimLoop as a model of gevent scheduling; 1 ms slack on lateness, one float step on rounding; samples schedules, does not enumerate them.'},
+  'C11': {
+    'text': 'ThriftMux stack against a mux peer that logs every Tdispatch tag per connection and keeps the set of unanswered tags; adversarial batches add duplicate replies, replies on never-issued tags, non-ping frames on tags 0/1; tag counter started near 2^8/2^16/2^24. Oracle at every Tdispatch: 2 <= tag <= 2^24-2 and tag not unanswered; at the end the highest tag is bounded by base + peak concurrency + timeouts.',
+    'design_ref': 'DESIGN.md 5 C11', 'note': _STACK_NOTE + ' The tag_base knob pokes TagPool._next (guarded, harness only).'},
+  'C12': {
+    'text': 'Full stacks with deadlines placed relative to every hop (open pending, pool queue, connect in progress, mux send queue under back-pressure, on the wire). Every send() invocation is logged with a global order; oracle: after a caller was handed TimeoutError no later send carries that call\'s id, and for mux a request already written to a still-healthy connection is followed by a Tdiscarded naming its tag.',
+    'design_ref': 'DESIGN.md 5 C12', 'note': _STACK_NOTE},
+  'C13': {
+    'text': 'The mux peer re-parses the whole byte stream of every connection with the harness\'s own codec (no residue allowed) and compares each Tdispatch with what was supplied: contexts (client id, caller properties incl. non-ASCII/empty, Deadline vs the call deadline on the virtual clock), empty dst/dtab, Thrift payload; Tdiscarded frames; replies of every type (Rdispatch OK/ERROR/NACK with reply contexts, Rerr, BAD_Rerr) and large tags travel back through the real receive loop and must produce the matching caller outcome.',
+    'design_ref': 'DESIGN.md 5 C13', 'note': _STACK_NOTE + ' The all-inputs dimension is sampled by the generator; the stream/clock/interleaving clauses are what simulation adds.'},
+  'C14': {
+    'text': 'Thrift (and mux) stacks against a server that decodes with the Thrift library\'s generated Processor over the pure-Python TBinaryProtocol; replies are delivered under seeded chunkings (whole, split inside the length prefix, byte by byte). Oracle: decoded method/args equal the call\'s; value / declared exception / application exception / void arrive as value, ScalesError(inner), ScalesError(inner TApplicationException), None for every chunking.',
+    'design_ref': 'DESIGN.md 5 C14', 'note': _STACK_NOTE + ' Test interfaces: repo hello.Hello and a harness interface in py:dynamic style (void, struct, declared exception).'},
+  'C18': {
+    'text': 'At the end of every full-stack run VarzAggregator totals for the service must equal the harness\'s counts of dispatched / succeeded / failed calls, the number of series per metric must not exceed the number of distinct sources, per-source percentiles must lie within that source\'s samples and be monotone, and the recorded latency samples must match the latencies measured on the virtual clock.',
+    'design_ref': 'DESIGN.md 5 C18', 'note': _STACK_NOTE},
 }
